@@ -26,7 +26,18 @@ func script(w *W) string {
 func script0(w *W) string {
 	var b strings.Builder
 	b.WriteString("<?php\n")
-	fmt.Fprintf(&b, "$ch = new Channel(%d);\n", w.Cap)
+	switch w.CapForm {
+	case "none":
+		b.WriteString("$ch = new Channel();\n")
+	case "neg":
+		fmt.Fprintf(&b, "$ch = new Channel(-%d);\n", w.Cap+1)
+	case "str":
+		fmt.Fprintf(&b, "$ch = new Channel(\"%d\");\n", w.Cap)
+	case "float":
+		fmt.Fprintf(&b, "$ch = new Channel(%d.0);\n", w.Cap)
+	default:
+		fmt.Fprintf(&b, "$ch = new Channel(%d);\n", w.Cap)
+	}
 	id := 0
 	nap := func(id int) string {
 		if w.SleepMask&(1<<uint(id)) != 0 {
